@@ -97,10 +97,19 @@ def run(tier="quick", seed=0):
                  ("construct", "serve", "requests", "close"),
                  ("construct", "serve", "slow-requests", "shutdown", "close"),
                  ("construct", "close", "close")]
+    import os
+    import shutil
+    import socket
+    import tempfile
+    sockdir = tempfile.mkdtemp(prefix="verif_c12_")
     kinds = [("simple", None), ("pooled", None), ("pooled", 1), ("pooled", 3)]
+    if hasattr(socket, "AF_UNIX"):
+        kinds += [("simple-unix", None), ("pooled-unix", None)]
     for kind, pool_size in kinds:
         for hist in histories:
-            if kind == "simple" and hist in (("construct", "serve", "close"), ("construct", "serve", "requests", "close")):
+            if kind.endswith("-unix") and ("requests" in hist or "slow-requests" in hist):
+                continue    # the Unix-socket listeners are taken through the stop sequences only
+            if kind.startswith("simple") and hist in (("construct", "serve", "close"), ("construct", "serve", "requests", "close")):
                 continue    # closing the socket of a plain server that is still serving is not one of the stop sequences
             n += 1
             desc = {"server": kind, "pool_size": pool_size, "history": " > ".join(hist)}
@@ -112,9 +121,12 @@ def run(tier="quick", seed=0):
                 if pool_size is not None:
                     pool = tp.ThreadPool(pool_size, 0, logname="verif")
                     pool.start()
-                cls = SimpleJSONRPCServer if kind == "simple" else PooledJSONRPCServer
+                cls = SimpleJSONRPCServer if kind.startswith("simple") else PooledJSONRPCServer
                 kw = {"thread_pool": pool} if pool is not None else {}
-                srv = cls(("127.0.0.1", 0), logRequests=False, **kw)
+                if kind.endswith("-unix"):
+                    srv = cls(os.path.join(sockdir, "l%d.sock" % n), logRequests=False, address_family=socket.AF_UNIX, **kw)
+                else:
+                    srv = cls(("127.0.0.1", 0), logRequests=False, **kw)
                 srv.register_function(lambda *a: list(a), "echo")
 
                 def fail(tag):
@@ -177,7 +189,7 @@ def run(tier="quick", seed=0):
                 if srv.socket.fileno() != -1:
                     failures.append({"name": "jsonrpclib.SimpleJSONRPCServer/bounded[socket_closed_after_close]", "input": desc,
                                      "observed": "listening socket still open"})
-                if kind == "pooled":
+                if kind.startswith("pooled"):
                     pool = getattr(srv, "_PooledJSONRPCServer__request_pool")
                     deadline = time.time() + LIMIT
                     alive = [t for t in getattr(pool, "_threads", []) if t.is_alive()]
@@ -192,7 +204,8 @@ def run(tier="quick", seed=0):
                 if "slow-requests" in hist and (len(set(calls)) != len(calls) or not set(calls) <= {0, 1, 2}):
                     failures.append({"name": "jsonrpclib.SimpleJSONRPCServer/bounded[no_duplicated_execution]", "input": desc,
                                      "observed": "executed: %r" % sorted(calls)})
-    return {"kind": "lifecycle histories and concurrent clients on the real servers over loopback TCP, with a watchdog (bounded)",
+    shutil.rmtree(sockdir, ignore_errors=True)
+    return {"kind": "lifecycle histories (TCP and Unix-socket listeners) and concurrent clients on the real servers, with a watchdog (bounded)",
             "bound": "%d histories x {plain, pooled with default / 1 / 3 workers}; 4 (quick) or 12 concurrent clients mixing calls, "
                      "failing methods and invalid bodies; %.0f s watchdog per operation" % (len(histories), LIMIT),
             "evaluations": n, "failures": failures[:40], "failures_total": len(failures)}
